@@ -4,7 +4,7 @@
 From LolModel Require Import Base Selectors.
 From LolSpec Require Import CssSem.
 From LolModel Require Import Machine Rewriter.
-From LolProofs Require Import Css CssPred StackTree Bailout TypedCounters.
+From LolProofs Require Import Css CssPred StackTree Bailout TypedCounters AstSem SelLR.
 From Coq Require Import List.
 Import ListNotations.
 From Coq Require Import ZArith Lia.
@@ -81,6 +81,21 @@ Proof. exact start_tag_keeps_stack_and_counters. Qed.
 Example C04_initial_stack_is_the_empty_tree : forall b, Rfull (new_vstack b) (mkTree [] []).
 Proof. exact new_vstack_full. Qed.
 
+(* The selector AST (Ast::add_selector: compounds hosted as nodes, shared prefixes merged, child and descendant branches)
+   denotes the selector list: read along the chain of open elements (outermost first, the element last), adding a selector
+   with handler id [id] to ANY AST adds exactly [id] at exactly the elements CssSem.selector_matches selects (right to left
+   over the ancestors), and changes nothing else.  sel_ok = the side conditions of C04_predicate_decides_compound for every
+   compound on every element of the chain. *)
+Theorem C04_ast_denotes_the_selector_list :
+  forall sel id root x anc i, sel_ok sel (rev anc ++ [x]) ->
+  (In i (den_any (add_selector root sel id) (rev anc ++ [x])) <->
+   In i (den_any root (rev anc ++ [x])) \/ (i = id /\ selector_matches sel x anc = true)).
+Proof. exact add_selector_is_css. Qed.
+(* the left-to-right reading (what the AST and the VM follow) is the right-to-left CSS matching, for every selector/chain *)
+Theorem C04_left_to_right_matching_is_css_matching :
+  forall sel x anc, sel_matches_lr sel (rev anc ++ [x]) = selector_matches sel x anc.
+Proof. exact selector_lr_is_css. Qed.
+
 (* Attribute bail-out and recovery (entry points, the parent's jumps, hereditary jumps, at any offset): running without
    attributes, bailing out, and resuming with attributes computes exactly what one execution with attributes computes,
    for every program, stack, element and attribute list. *)
@@ -112,3 +127,5 @@ Print Assumptions C04_vm_stack_is_the_tag_induced_tree.
 Print Assumptions C04_attribute_bailout_and_recovery_equal_one_phase_execution.
 Print Assumptions C04_vm_stack_and_counters_follow_the_tree.
 Print Assumptions C04_sibling_indices_are_the_positions_in_the_tree.
+Print Assumptions C04_ast_denotes_the_selector_list.
+Print Assumptions C04_left_to_right_matching_is_css_matching.
